@@ -862,3 +862,186 @@ Proof.
   rewrite monomials_len in Hb, Hmin. cbn [weights_or_ones] in Hmin.
   exists sx, sy, cx, cy, w, d. repeat split; auto. now apply F_is_poly_eval.
 Qed.
+
+(* ====================================================================== *)
+(* LOESS reproduces polynomials of degree <= its degree                    *)
+(* ====================================================================== *)
+Lemma combine_skipn' {A B} m (a : list A) (b : list B) : combine (skipn m a) (skipn m b) = skipn m (combine a b).
+Proof. revert a b. induction m as [|m IH]; intros [|x a] [|y b]; cbn; auto. now destruct (skipn m a). Qed.
+Lemma combine_firstn' {A B} m (a : list A) (b : list B) : combine (firstn m a) (firstn m b) = firstn m (combine a b).
+Proof. revert a b. induction m as [|m IH]; intros [|x a] [|y b]; cbn; auto. now rewrite IH. Qed.
+Lemma In_skipn {A} m (l : list A) z : In z (skipn m l) -> In z l.
+Proof. intros H. rewrite <- (firstn_skipn m l). apply in_or_app. now right. Qed.
+Lemma Forall_combine_vn (P : Q -> Q -> Prop) a b : length a = length b ->
+  Forall (fun pr => P (fst pr) (snd pr)) (combine a b) -> forall i, (i < length a)%nat -> P (vn a i) (vn b i).
+Proof.
+  revert b. induction a as [|x a IH]; intros [|y b] Hl F i Hi; cbn in *; try lia.
+  inversion F; subst. destruct i as [|i]; [assumption|]. apply IH; auto; lia.
+Qed.
+Lemma poly_eval_ext a b x : Forall2 Qeq a b -> poly_eval a x == poly_eval b x.
+Proof.
+  intros H. apply Forall2_Qeq_vn in H as [Hl Hv]. unfold poly_eval. rewrite <- Hl.
+  apply sum_n_ext. intros i Hi. now rewrite Hv.
+Qed.
+
+Theorem loess_reproduces_poly xs ys deg span x p beta v :
+  length xs = length ys ->
+  loess xs ys (Z.of_nat deg) span x = FOk (beta, v) ->
+  length p = S deg ->
+  Forall (fun pr => snd pr == poly_eval p (fst pr)) (combine xs ys) ->
+  (forall sx sy cx cy w, loess_prepare xs ys = (sx, sy) ->
+     loess_design sx sy (loess_q (length xs) span) (window_start 0 sx (loess_q (length xs) span) x) x = FOk (cx, cy, w) ->
+     enough_points deg cx w) ->
+  Forall2 Qeq beta p /\ v == poly_eval p x.
+Proof.
+  intros Hl H Hp Hdata Hen.
+  pose proof (loess_inv _ _ _ _ _ _ _ H) as (sx & sy & cx & cy & w & Ep & Hspan & Hd & Hr & Hf).
+  cbv zeta in Hd. specialize (Hen sx sy cx cy w Ep Hd).
+  destruct (prepare_spec xs ys sx sy Hl Ep) as (Hs & Hlx & Hly & Perm).
+  destruct (loess_design_spec _ _ _ _ _ _ _ _ Hs Hd) as (Ecx & Ecy & d & Hdpos & Hdist & _ & Ew).
+  assert (Hwn : Forall (Qle 0) w).
+  { rewrite Ew, Forall_forall. intros t Ht. apply in_map_iff in Ht as (c & <- & Hc). apply tricube_nonneg; auto. }
+  assert (Hlc : length cx = length cy).
+  { rewrite Ecx, Ecy, !firstn_length, !skipn_length. lia. }
+  assert (Hwin : forall i, (i < length cx)%nat -> vn cy i == poly_eval p (vn cx i)).
+  { apply (Forall_combine_vn (fun a b => b == poly_eval p a) cx cy Hlc).
+    rewrite Ecx, Ecy, combine_firstn', combine_skipn'. rewrite Forall_forall in *. intros pr Hpr.
+    apply In_firstn, In_skipn in Hpr. apply Hdata. eapply Permutation_in; [symmetry; exact Perm | exact Hpr]. }
+  assert (B : Forall2 Qeq beta p).
+  { apply (polyreg_reproduces cx cy (Some w) deg p beta Hr Hwn Hp Hwin). exact Hen. }
+  split; [exact B|]. rewrite (F_is_poly_eval _ _ _ Hf). now apply poly_eval_ext.
+Qed.
+
+(* ====================================================================== *)
+(* LOESS does not depend on the order of the input (distinct abscissae)    *)
+(* ====================================================================== *)
+Fixpoint ssorted (l : list (Q * Q)) : Prop :=
+  match l with [] => True | a :: t => (forall b, In b t -> fst a < fst b) /\ ssorted t end.
+
+(* two strictly sorted lists with the same elements are equal *)
+Lemma ssorted_perm_eq l : forall l', ssorted l -> ssorted l' -> Permutation l l' -> l = l'.
+Proof.
+  induction l as [|a t IH]; intros [|a' t'] Hs Hs' P.
+  - reflexivity.
+  - apply Permutation_nil in P. discriminate.
+  - symmetry in P. apply Permutation_nil in P. discriminate.
+  - destruct Hs as [Ha Ht]. destruct Hs' as [Ha' Ht'].
+    assert (E : a = a').
+    { assert (I1 : In a (a' :: t')) by (eapply Permutation_in; [exact P | now left]).
+      assert (I2 : In a' (a :: t)) by (eapply Permutation_in; [symmetry; exact P | now left]).
+      destruct I1 as [->|I1]; [reflexivity|]. destruct I2 as [->|I2]; [reflexivity|].
+      specialize (Ha' a I1). specialize (Ha a' I2). exfalso. lra. }
+    subst a'. f_equal. apply IH; auto. eapply Permutation_cons_inv; exact P.
+Qed.
+
+(* keys pairwise different *)
+Definition keys_distinct (l : list (Q * Q)) : Prop := distinctQ (map fst l).
+Lemma keys_distinct_alt l : keys_distinct l <->
+  match l with [] => True | a :: t => (forall b, In b t -> ~ fst a == fst b) /\ keys_distinct t end.
+Proof.
+  destruct l as [|a t]; [reflexivity|]. unfold keys_distinct. cbn [map distinctQ]. rewrite Forall_forall. split.
+  - intros [H1 H2]. split; [|exact H2]. intros b Hb. apply H1. now apply in_map.
+  - intros [H1 H2]. split; [|exact H2]. intros r Hr. apply in_map_iff in Hr as (b & <- & Hb). now apply H1.
+Qed.
+Lemma keys_distinct_pairs l : keys_distinct l -> forall a b l1 l2 l3, l = l1 ++ a :: l2 ++ b :: l3 -> ~ fst a == fst b.
+Proof.
+  induction l as [|h t IH]; intros H a b l1 l2 l3 E; [destruct l1; discriminate|].
+  apply keys_distinct_alt in H as [Hh Ht]. destruct l1 as [|h1 l1]; cbn in E; inversion E; subst.
+  - apply Hh. apply in_or_app. right. now left.
+  - eapply IH; eauto.
+Qed.
+(* distinctness is a property of the set of pairs: any two different positions have different keys *)
+Definition keys_inj (l : list (Q * Q)) : Prop :=
+  forall i j a b, nth_error l i = Some a -> nth_error l j = Some b -> fst a == fst b -> i = j.
+Lemma keys_distinct_inj l : keys_distinct l -> keys_inj l.
+Proof.
+  induction l as [|h t IH]; intros H i j a b Hi Hj E; [destruct i; discriminate|].
+  apply keys_distinct_alt in H as [Hh Ht].
+  destruct i as [|i], j as [|j]; cbn in Hi, Hj; auto.
+  - inversion Hi; subst. exfalso. apply (Hh b); [eapply nth_error_In; eassumption | exact E].
+  - inversion Hj; subst. exfalso. apply (Hh a); [eapply nth_error_In; eassumption | now symmetry].
+  - f_equal. eapply IH; eauto.
+Qed.
+
+Lemma insert_pair_ssorted p l : ssorted l -> (forall b, In b l -> ~ fst p == fst b) -> ssorted (insert_pair p l).
+Proof.
+  induction l as [|h t IH]; intros H Hp; cbn [insert_pair].
+  - split; [intros b []|exact I].
+  - destruct H as [Hh Ht]. destruct (Qltb (fst p) (fst h)) eqn:E.
+    + apply Qltb_true_lt in E. split; [|split; assumption].
+      intros b [<-|Hb]; [exact E|]. apply Qlt_trans with (fst h); [exact E | now apply Hh].
+    + apply Qltb_false_le in E. split.
+      * intros b Hb. apply insert_pair_In in Hb as [->|Hb]; [|now apply Hh].
+        destruct (Qlt_le_dec (fst h) (fst p)) as [L|L]; [exact L|].
+        exfalso. apply (Hp h); [now left | lra].
+      * apply IH; [exact Ht|]. intros b Hb. apply Hp. now right.
+Qed.
+
+Lemma keys_distinct_perm l l' : Permutation l l' -> keys_distinct l -> keys_distinct l'.
+Proof.
+  induction 1 as [|x l l' P IH|x y l|l l' l'' P1 IH1 P2 IH2]; intros H; auto.
+  - apply keys_distinct_alt in H as [Hx Hl]. apply keys_distinct_alt. split; [|now apply IH].
+    intros b Hb. apply Hx. eapply Permutation_in; [symmetry; exact P | exact Hb].
+  - apply keys_distinct_alt in H as [Hy H]. apply keys_distinct_alt in H as [Hx Hl].
+    apply keys_distinct_alt. split.
+    + intros b [<-|Hb]; [intro C; apply (Hy x); [now left | now symmetry] | now apply Hx].
+    + apply keys_distinct_alt. split; [|exact Hl]. intros b Hb. apply Hy. now right.
+Qed.
+
+Lemma sort_pairs_ssorted l : keys_distinct l -> ssorted (sort_pairs l).
+Proof.
+  induction l as [|p t IH]; intros H; cbn [sort_pairs]; [exact I|].
+  apply keys_distinct_alt in H as [Hp Ht]. apply insert_pair_ssorted; [now apply IH|].
+  intros b Hb. apply Hp. eapply Permutation_in; [symmetry; apply sort_pairs_perm | exact Hb].
+Qed.
+Lemma Qltb_lt_true a b : a < b -> Qltb a b = true.
+Proof.
+  intros H. unfold Qltb. apply negb_true_iff. destruct (Qle_bool b a) eqn:E; [|reflexivity].
+  apply Qle_bool_iff in E. exfalso. lra.
+Qed.
+Lemma sort_pairs_id l : ssorted l -> sort_pairs l = l.
+Proof.
+  induction l as [|p t IH]; intros H; cbn [sort_pairs]; [reflexivity|]. destruct H as [Hp Ht].
+  rewrite (IH Ht). destruct t as [|h t']; [reflexivity|]. cbn [insert_pair].
+  now rewrite (Qltb_lt_true _ _ (Hp h (or_introl eq_refl))).
+Qed.
+Lemma lsorted_distinct_ssorted l : lsorted (map fst l) -> keys_distinct l -> ssorted l.
+Proof.
+  induction l as [|a t IH]; intros Hs Hd; [exact I|]. cbn [map lsorted] in Hs. destruct Hs as [Ha Ht].
+  apply keys_distinct_alt in Hd as [Hda Hdt]. split; [|now apply IH].
+  intros b Hb. specialize (Ha (fst b) (in_map fst _ _ Hb)). specialize (Hda b Hb).
+  destruct (Qlt_le_dec (fst a) (fst b)) as [L|L]; [exact L | exfalso; apply Hda; lra].
+Qed.
+Lemma map_fst_combine' (a b : list Q) : length a = length b -> map fst (combine a b) = a.
+Proof. revert b. induction a as [|x a IH]; intros [|y b] H; cbn in *; try lia; auto. now rewrite IH by lia. Qed.
+Lemma map_snd_combine' (a b : list Q) : length a = length b -> map snd (combine a b) = b.
+Proof. revert b. induction a as [|x a IH]; intros [|y b] H; cbn in *; try lia; auto. now rewrite IH by lia. Qed.
+
+(* with distinct abscissae the prepared data are THE sorted list of pairs, whether or not the input was sorted *)
+Lemma prepare_canonical xs ys : length xs = length ys -> distinctQ xs ->
+  loess_prepare xs ys = (map fst (sort_pairs (combine xs ys)), map snd (sort_pairs (combine xs ys))).
+Proof.
+  intros Hl Hd. unfold loess_prepare. destruct (sortedb xs) eqn:E; [|reflexivity].
+  assert (Hk : keys_distinct (combine xs ys)) by (unfold keys_distinct; now rewrite map_fst_combine').
+  rewrite sort_pairs_id.
+  - now rewrite map_fst_combine', map_snd_combine'.
+  - apply lsorted_distinct_ssorted; [|exact Hk]. rewrite map_fst_combine' by exact Hl. now apply sortedb_lsorted.
+Qed.
+
+(* LOESS does not depend on the order in which the (x, y) pairs are given, for distinct abscissae *)
+Theorem loess_perm_invariant xs ys xs' ys' deg span x :
+  length xs = length ys -> length xs' = length ys' -> distinctQ xs ->
+  Permutation (combine xs ys) (combine xs' ys') ->
+  loess xs ys deg span x = loess xs' ys' deg span x.
+Proof.
+  intros Hl Hl' Hd P.
+  assert (Hk : keys_distinct (combine xs ys)) by (unfold keys_distinct; now rewrite map_fst_combine').
+  assert (Hk' : keys_distinct (combine xs' ys')) by (eapply keys_distinct_perm; eassumption).
+  assert (Hd' : distinctQ xs') by (unfold keys_distinct in Hk'; now rewrite map_fst_combine' in Hk').
+  assert (Hn : length xs = length xs').
+  { pose proof (Permutation_length P) as L. rewrite !combine_length, <- Hl, <- Hl', !Nat.min_id in L. exact L. }
+  assert (ES : sort_pairs (combine xs ys) = sort_pairs (combine xs' ys')).
+  { apply ssorted_perm_eq; try now apply sort_pairs_ssorted.
+    rewrite <- (sort_pairs_perm (combine xs ys)), <- (sort_pairs_perm (combine xs' ys')). exact P. }
+  unfold loess. rewrite (prepare_canonical xs ys Hl Hd), (prepare_canonical xs' ys' Hl' Hd'), ES, Hn. reflexivity.
+Qed.
